@@ -61,8 +61,12 @@ func pre(format string, a ...interface{}) error {
 	return fmt.Errorf("%w: %s", errPre, fmt.Sprintf(format, a...))
 }
 
+// simpleName: a legal single path component of the host filesystem (no
+// separator, no NUL, not "." or "..", at most NAME_MAX = 255 bytes). Nothing
+// else is reserved: names ending in ".tmp", beginning with '.', etc. are
+// ordinary names.
 func simpleName(s string) bool {
-	return s != "" && s != "." && s != ".." && !strings.ContainsAny(s, "/\x00") && !strings.HasSuffix(s, ".tmp")
+	return s != "" && s != "." && s != ".." && !strings.ContainsAny(s, "/\x00") && len(s) <= 255
 }
 
 func (m *Model) Mkdir(dir string) error {
